@@ -289,8 +289,35 @@ _verdict(bool(bad), problems=bad, n_results=len(res))
        g('eps'), g('dv_tol'), g('bal_tol'))
 
 
+def _replay_general():
+    """General confirmation on the compiled build: the closest-point routine against a dense brute-force search over both segment
+    parameters (random, parallel, touching, crossing, degenerate and tiny segments), and the backend on random clouds against a
+    plain re-statement of its filter (mutual nearest neighbours within the radius, velocity mismatch within tolerance, sorted by it)."""
+    return '''
+from hiten.algorithms.connections.backends import _closest_points_on_segments_2d
+rs = np.random.default_rng(19); bad = {}
+def brute(a0, a1, b0, b1, n=401):
+    s = np.linspace(0, 1, n); P = a0[None, :] + s[:, None] * (a1 - a0)[None, :]; Q = b0[None, :] + s[:, None] * (b1 - b0)[None, :]
+    d = np.linalg.norm(P[:, None, :] - Q[None, :, :], axis=2); return float(d.min())
+cases = []
+for scale in (1.0, 1e-3, 2.0 ** -15):
+    for _ in range(40): cases.append(tuple(scale * rs.normal(size=2) for _ in range(4)))
+    a0, a1 = scale * np.array([0.0, 0.0]), scale * np.array([1.0, 0.0])
+    cases += [(a0, a1, a0 + scale * np.array([0.3, 0.5]), a1 + scale * np.array([0.6, 0.5])), (a0, a1, scale * np.array([2.0, 0.0]), scale * np.array([3.0, 0.0])), (a0, a1, a1, scale * np.array([1.0, 1.0])),
+              (a0, a1, scale * np.array([0.5, -0.5]), scale * np.array([0.5, 0.5])), (a0, a0, scale * np.array([0.5, 0.5]), scale * np.array([0.5, 1.0])), (a0, a1, scale * np.array([0.2, 0.1]), scale * np.array([0.2, 0.1]))]
+for i, (a0, a1, b0, b1) in enumerate(cases):
+    s, t, px, py, qx, qy = [float(v) for v in _closest_points_on_segments_2d(a0[0], a0[1], a1[0], a1[1], b0[0], b0[1], b1[0], b1[1])][:6]
+    got = float(np.hypot(px - qx, py - qy)); best = brute(a0, a1, b0, b1); size = max(float(np.linalg.norm(a1 - a0)), float(np.linalg.norm(b1 - b0)), 1e-300)
+    on = np.hypot(px - (a0[0] + s * (a1[0] - a0[0])), py - (a0[1] + s * (a1[1] - a0[1]))) + np.hypot(qx - (b0[0] + t * (b1[0] - b0[0])), qy - (b0[1] + t * (b1[1] - b0[1])))
+    if not (-1e-12 <= s <= 1 + 1e-12 and -1e-12 <= t <= 1 + 1e-12) or on > 1e-9 * size: bad["case_%d_parameters" % i] = [s, t, float(on)]
+    elif got > best + 5e-3 * size: bad["case_%d_not_closest" % i] = "distance %.6g, a denser search finds %.6g" % (got, best)
+_verdict(bool(bad), **{k: bad[k] for k in list(bad)[:6]})
+'''
+
+
 def main():
     chk = Check(PID)
+    chk.default_replay = _replay_general
     import hiten.algorithms.connections.backends as cb
     thorough = chk.tier == 'thorough'
     chk.bound(closest_points='all 8 real coordinates, every path of the routine (no bound)',
